@@ -1753,7 +1753,7 @@ func c10EnvelopeIsValidUTF8(c *Check, rule string) {
 			}
 			return true, true
 		})
-		path, f := r.F.Reach(Query{From: r.Entry(), Inclusive: true, Target: isPt(targets), AvoidEdge: valid, NoCorr: true})
+		path, f := r.F.Reach(Query{From: r.Entry(), Inclusive: true, Target: isPt(targets), AvoidEdge: valid})
 		c.Hold(rule, st.recv+"."+st.fn+":valid-utf8", r.FI.Decl.Pos(), !f, "the address reaches the pipeline without a test that it is valid UTF-8: `RCPT TO:<\\xffuser@example.com>` under SMTPUTF8 is accepted, the first attempt is made for the 17-byte address as received, the spool record (JSON) holds U+FFFD in place of the byte – every retry and every attempt after a restart goes to a different address: "+r.F.Describe(path))
 	}
 }
